@@ -465,8 +465,10 @@ theorem fillAF_spec (sqrt : α → α) (dim : Nat) (t1 t2 : List (Pt α)) (S : L
   obtain ⟨rows, he, hl, hp⟩ := fill_foldl sqrt dim t1 t2 S.reverse (t1.map (fun _ => {})) 0 (by simp)
     (fun s hs => hb s (List.mem_reverse.mp hs))
   refine ⟨rows, ?_, hl, ?_⟩
-  · unfold fillAF
-    rw [he]
+  · have h0 : (freshRows t1).map (fun r : Row α => { r with pair := [] }) = t1.map (fun _ => {}) := by
+      simp [freshRows]
+    unfold fillAF fillAFOn
+    rw [h0, he]
     simp
   · intro j hj
     rw [hp j]
@@ -524,7 +526,7 @@ theorem dtw_spec (sqrt : α → α) (w : α → α → α) (dim : Nat) (t1 t2 : 
     (T w 0 (Dmat sqrt dim t1 t2) (t2.length - 1) (t1.length - 1))
     (fun s hs => by have := hb s hs; omega)
   refine ⟨rows, ?_, hl, hp⟩
-  unfold dtw
+  unfold dtw dtwOn
   rw [distCols_eq, dtwCore_spec w 0 _ _ _ h1 h2]
   exact he
 
